@@ -67,6 +67,19 @@ class PitRun:
         self.shared_param = None
         self.seen_data = []
         self.finals = {}
+        self.want_raw = set()
+        if front == 'v2':
+            # appv2 has no default: an Interest cannot be expressed without a Data validator (nothing may be sent or kept)
+            n0 = len(self.face.out)
+            try:
+                c = self.app.express('/zz/novalidator', None, lifetime=10)
+                if hasattr(c, 'close'):
+                    c.close()
+                self.bg.append('express-without-validator-accepted')
+            except ValueError:
+                pass
+            if len(self.face.out) != n0 or self.npit():
+                self.bg.append('express-without-validator-left-something')
 
     def close(self):
         for c in self.coros.values():
@@ -177,7 +190,17 @@ class PitRun:
             content = res[1] if self.front == 'v2' else res[2]
             try:
                 did = int(bytes(content)[1:])
-                ok = bytes(self.data_wire_by_id(did, name) or b'') != b''
+                w = bytes(self.data_wire_by_id(did, name) or b'')
+                ok = w != b''
+                # the rest of what the caller gets belongs to the same packet: appv2 context (raw packet, MetaInfo),
+                # legacy MetaInfo and - when asked for - the raw packet
+                if ok and self.front == 'v2':
+                    ctx = res[2]
+                    ok = bytes(ctx['raw_packet']) == w and \
+                        (ctx['meta_info'].freshness_period == (1000 if did % 2 == 0 else None))
+                elif ok:
+                    ok = res[1].freshness_period == (1000 if did % 2 == 0 else None) and \
+                        (len(res) == 3 or bytes(res[3]) == w) and (len(res) == 4) == (i in self.want_raw)
             except Exception:
                 did, ok = 0, False
             return {'k': 'data' if ok else 'error:bad-data', 'd': did, 'r': 0, 'v': '-', 'at': at}
@@ -264,6 +287,9 @@ class PitRun:
                     self.app.data_validator = self.app_wide_validator
                     coro = self.with_entry(e, self.app.express_interest(name, **kw))
                 else:
+                    if e % 3 == 1:
+                        kw['need_raw_packet'] = True
+                        self.want_raw.add(e - 1)
                     coro = self.app.express_interest(name, validator=self.validator_for(e), **kw)
             except ndn_types.NetworkError:
                 self.vfut.pop()
